@@ -109,6 +109,8 @@ class Kernel:
         # line-level scheduling: every source line executed by a managed task in one of these files (path suffixes) is a
         # scheduling point (used to interleave plain library calls that share module-level state)
         self.trace_files = ()
+        self.eager_timeouts = False   # timed waits may expire although other tasks are enabled
+        self.expired_early = 0
         self.trace_repeat_limit = 3
 
     # -- called from any thread -------------------------------------------------------------
@@ -183,7 +185,16 @@ class Kernel:
                     return Outcome('step_bound', self)
                 # order: the task that ran last first (unless it is yielding), then by id; yielders last
                 enabled.sort(key=lambda t: (t.yielding, 0 if t is self.last else 1, t.id))
+                expiring = []
+                if self.eager_timeouts and not timed:
+                    # "however long any one thread is delayed": a timed wait may also expire while others could still
+                    # run (they are just slower than the timeout) - offered to the chooser after all enabled tasks
+                    expiring = [t for t in self.tasks if t.state == 'ready' and t.timeout_ok and not t.enabled()]
+                    enabled = enabled + sorted(expiring, key=lambda t: t.id)
                 t = self.chooser(enabled, self)
+                if t in expiring:
+                    t.timed_out = True
+                    self.expired_early += 1
                 for o in enabled:
                     if o is not t:
                         o.waited += 1
